@@ -36,8 +36,8 @@ TRANSFORMS = ["transpose", "feature_perm", "sample_perm", "partition_list", "par
 
 
 @st.composite
-def strategy(draw):
-    cls = draw(st.sampled_from(CLASSES))
+def strategy(draw, cls=None):
+    cls = cls or draw(st.sampled_from(CLASSES))  # (the runner stratifies: every shard runs its slice of CLASSES, one class at a time)
     tr = draw(st.sampled_from(TRANSFORMS))
     if tr == "sample_perm" and cls in ORDER_DEPENDENT:
         tr = "feature_perm"
